@@ -180,6 +180,10 @@ theorem construct_cls {tgt : Cls} {v v' : V} (h : construct tgt v = .ok v') : v'
         simpa using hc
       · split at h <;> cases h; rfl
     · cases h
+  · split at h
+    · split at h <;> cases h; rfl
+    · split at h <;> cases h; rfl
+    · cases h
   · cases h
 
 /-- `construct tgt v` is an instance of `tgt` -/
@@ -219,6 +223,7 @@ theorem build_elems {type_ : Cls} {ys : List V} {v' : V} (h : build type_ ys = .
   · cases h
   · exact absurd hk hs
   · exact absurd hk hb
+  · cases h
   · cases h
   · cases h
   · cases h
